@@ -159,6 +159,8 @@ pub(crate) fn object_field(p: &mut Parser, constness: Constness) {
         }
         value(p, constness, true);
         p.recursion_limit.decrement()
+    } else {
+        p.err("expected an Object Field value");
     }
 }
 
